@@ -1015,24 +1015,6 @@ fn asserts(thorough: bool) -> Vec<String> {
     ops
 }
 
-fn probe() {
-    let rt = tokio::runtime::Builder::new_current_thread().enable_all().build().unwrap();
-    rt.block_on(async {
-        let w = nexus::World::new("probe").await;
-        eprintln!("ids {:?}", w.ids);
-        for kind in ["Concept", "Proposition", "Evidence", "Assertion", "Activity"] {
-            eprintln!("VIEW {kind}: {}", w.view(kind).await);
-            let mut params = std::collections::BTreeMap::new();
-            params.insert("id".to_string(), Value::String(w.ids[kind].clone()));
-            for act in ["SET FIELDS {name: \"n2\"}", "SET FIELDS {stance: \"oppose\"}", "SET FIELDS {key: \"k\"}", "SET FIELDS {name: 3}", "SET ATTRIBUTES {note: \"x\"}", "UNSET ATTRIBUTES {note}",
-                        "SET FACET \"MnemonicState\" {salience: 0.5}", "UNSET FACET \"MnemonicState\" {salience}", "SET STRUCTURAL { (\"has_step\", :id) }", "UNSET STRUCTURAL { (\"has_step\", :id) }"] {
-                let o = w.exec(&format!("UPDATE :id {act}"), None, &params).await;
-                eprintln!("{kind:12} {act:50} -> {:?}", match &o { nexus::Outcome::Refused{code, message} => format!("REFUSED {code}: {}", &message[..message.len().min(70)]), other => format!("{other:?}") });
-            }
-        }
-    });
-}
-
 /// Systematic AST shapes, most of which the text grammar cannot produce (the validator has to refuse or
 /// accept them on its own): every `Option` none / some(empty) / some(non-empty), empty lists, repeated
 /// facets, empty / odd handles, every pair of handle-declaring families with one handle, nested
@@ -1196,10 +1178,6 @@ fn runtime_cases() -> Vec<String> {
 }
 
 fn main() {
-    if std::env::var("C16_PROBE").is_ok() {
-        probe();
-        return;
-    }
     let args = Args::parse();
     let rule = "non-trivial = a command accepted by parse_kip / validate_command that carries at least one assignment block, structural entry, \
                 selection block, handle reference, ENSURE PROPOSITION or PURGE (i.e. something the guards had to look at and the oracle walked), \
